@@ -15,7 +15,7 @@ use crate::{
     GDErrorKind,
     GDResult,
 };
-use std::collections::HashMap;
+use std::collections::{BTreeMap, HashMap};
 use std::net::SocketAddr;
 
 /// Send status request, and parse response into HashMap.
@@ -96,7 +96,8 @@ fn get_server_values_impl(socket: &mut UdpSocket) -> GDResult<HashMap<String, St
 }
 
 fn extract_players(server_vars: &mut HashMap<String, String>) -> GDResult<Vec<Player>> {
-    let mut players_data: Vec<HashMap<String, String>> = Vec::new();
+    // Keyed by the player id: ids come from the server and can be arbitrarily large or sparse
+    let mut players_data: BTreeMap<usize, HashMap<String, String>> = BTreeMap::new();
 
     server_vars.retain(|key, value| {
         let split: Vec<&str> = key.split('_').collect();
@@ -121,18 +122,17 @@ fn extract_players(server_vars: &mut HashMap<String, String>) -> GDResult<Vec<Pl
             return true;
         }
 
-        if id >= players_data.len() {
-            let others = vec![HashMap::new(); id - players_data.len() + 1];
-            players_data.extend_from_slice(&others);
-        }
-        players_data[id].insert(kind.to_string(), value.to_string());
+        players_data
+            .entry(id)
+            .or_default()
+            .insert(kind.to_string(), value.to_string());
 
         false
     });
 
     let mut players: Vec<Player> = Vec::with_capacity(players_data.len());
 
-    for player_data in players_data {
+    for player_data in players_data.into_values() {
         let new_player = Player {
             name: match player_data.get("player") {
                 Some(v) => v.clone(),
